@@ -2000,7 +2000,10 @@ class Message(ABC):
             if not self._betterproto.meta_by_field_name[name].optional
             else None
         )
-        return self.__raw_get(name) is not default
+        value = self.__raw_get(name)
+        # An unselected oneof member holds PLACEHOLDER even when the field is declared
+        # optional (pydantic dataclasses declare every oneof member that way).
+        return value is not default and value is not PLACEHOLDER
 
     @classmethod
     def _validate_field_groups(cls, values):
